@@ -230,8 +230,8 @@ func c12Gen(seed int64, idx int) c12Case {
 		lib := yang.S("module", "fx-lib", yang.S("namespace", "urn:verif:fx-lib"), yang.S("prefix", "fl"),
 			yang.S("grouping", "g", yang.S("description", "the grouping g"), yang.S("reference", "ref of g"),
 				yang.S("typedef", "x", yang.S("type", "string", yang.S("length", "1..9"))),
-				yang.S("leaf", "x", yang.S("type", "x")),
-				yang.S("container", "c", yang.S("leaf", "in-lib", yang.S("type", "string")))),
+				yang.S("leaf", "x", yang.S("type", "x"), yang.S("must", "count(../fl:c/fl:in-lib) >= 0 or ../c/in-lib")),
+				yang.S("container", "c", yang.S("leaf", "in-lib", yang.S("type", "string"), yang.S("when", "../../fl:x != 'off'")))),
 			yang.S("grouping", "h", yang.S("leaf", "h-of-lib", yang.S("type", "string"))))
 		user := yang.S("module", "fx-user", yang.S("namespace", "urn:verif:fx-user"), yang.S("prefix", "fu"), yang.S("import", "fx-lib", yang.S("prefix", "fl")),
 			yang.S("grouping", "h", yang.S("description", "the grouping h"), yang.S("leaf", "h-of-user", yang.S("type", "int8"))),
@@ -240,8 +240,8 @@ func c12Gen(seed int64, idx int) c12Case {
 				yang.S("container", "plain", yang.S("uses", "h"))))
 		inl := yang.S("module", "fx-user", yang.S("namespace", "urn:verif:fx-user"), yang.S("prefix", "fu"), yang.S("import", "fx-lib", yang.S("prefix", "fl")),
 			yang.S("container", "fx-top", yang.S("description", "the container"),
-				yang.S("leaf", "x", yang.S("type", "fl:x"), yang.S("default", "five")),
-				yang.S("container", "c", yang.S("leaf", "in-lib", yang.S("type", "string")), yang.S("leaf", "h-of-user", yang.S("type", "int8"))),
+				yang.S("leaf", "x", yang.S("type", "fl:x"), yang.S("default", "five"), yang.S("must", "count(../fl:c/fl:in-lib) >= 0 or ../c/in-lib")),
+				yang.S("container", "c", yang.S("leaf", "in-lib", yang.S("type", "string"), yang.S("when", "../../fl:x != 'off'")), yang.S("leaf", "h-of-user", yang.S("type", "int8"))),
 				yang.S("container", "plain", yang.S("leaf", "h-of-user", yang.S("type", "int8")))))
 		c.ms = &yang.ModSet{Mods: []*yang.Stmt{user, lib}}
 		// (in the inline form the typedef of g stands at the top of its module, where the leaf can name it)
@@ -376,6 +376,10 @@ var runAsParentRe = regexp.MustCompile(`runAsParent=(true|false)`)
 
 func (p *c12) Run(tier string, seed int64, idx int) core.CaseResult {
 	var res core.CaseResult
+	// (the compiled programs of must, when and leafref paths are part of what is compared: they name the
+	// namespace that every name in the expression was resolved to)
+	dump.WithPrograms = true
+	defer func() { dump.WithPrograms = false }()
 	c := c12Gen(seed, idx)
 	r := core.CaseRng(seed, "C12f", idx)
 	var feats []string
